@@ -251,6 +251,7 @@ import (
 	"encoding/json"
 	"fmt"
 	"os"
+	"runtime"
 	"testing"
 	"time"
 
@@ -323,6 +324,11 @@ func TestZZReplay(t *testing.T) {
 		case <-time.After(20 * time.Second):
 			res.Outcome = "timeout"
 			timedOut = true
+			if os.Getenv("ZZ_SCHED_DEBUG") != "" {
+				buf := make([]byte, 1<<17)
+				n := runtime.Stack(buf, true)
+				fmt.Fprintf(os.Stderr, "CASE TIMEOUT %s\n%s\n", zzclock.ZZSchedStatus(), buf[:n])
+			}
 		}
 		if !timedOut {
 			res.Failed = append(zzFailed, zzclock.ZZGhostFailed()...)
